@@ -25,6 +25,8 @@ VARIANTS = {
     'extra':   ('gcc',   ['-O2'], 'idn2', ['-DEAV_EXTRA']),
     'idn':     ('gcc',   ['-O2'], 'idn', []),
     'idnkit':  ('gcc',   ['-O2'], 'idnkit', []),
+    'idn-extra':    ('gcc', ['-O2'], 'idn', ['-DEAV_EXTRA']),
+    'idnkit-extra': ('gcc', ['-O2'], 'idnkit', ['-DEAV_EXTRA']),
 }
 for i in range(8):
     d = []
